@@ -19,3 +19,4 @@ func vAllocs() int
 func vCostBytes() int
 func vCostReset()
 func vAssertCost(c bool, id string)
+func vFloatSame(a, b float64) bool
